@@ -2,7 +2,7 @@ SPEC = {
     "id": "C22",
     "coq_props": ["Properties/C22.v", "Corr/C22.v"],
     "module": "MS.Properties.C22",
-    "theorems": ["C22_compose", "C22_windows", "C22_pipeline", "C22_nest", "C22_dividesb_sound", "C22_refuted"],
+    "theorems": ["C22_compose", "C22_windows", "C22_pipeline", "C22_zone", "C22_utc", "C22_dividesb_sound", "C22_refuted_zone", "C22_refuted"],
     "corr_require": "Require Import MS.Corr.C22.",
     "agrees": "C22.agrees",
     "in_domain": "C22.in_domain",
@@ -19,23 +19,24 @@ SPEC = {
         "Flocq 4.1.0 (IEEE754.BinarySingleNaN) as the meaning of Go's float32 comparisons; its operations carry validity proofs that "
         "depend on ClassicalDedekindReals.sig_forall_dec, ClassicalDedekindReals.sig_not_dec, "
         "FunctionalExtensionality.functional_extensionality_dep, Classical_Prop.classic, listed by Print Assumptions for C22_compose, "
-        "C22_windows, C22_pipeline, C22_refuted; C22_nest and C22_dividesb_sound are closed under the global context",
+        "C22_windows, C22_pipeline, C22_refuted, C22_refuted_zone; C22_zone, C22_utc and C22_dividesb_sound are closed under the global context",
         "translator gen/: agg_Day, agg_suffixDefs regenerated from utils/timeframe.go on every run",
         "hand-written model coq/Model/Candle.v (see C21), tied by bit-exact in-Coq evaluation of all three real candler runs of every "
         "generated case (harness/props/c22.go)",
         "Go harness, Python driver lib/vk.py",
     ],
     "assumptions": [
-        "system timezone UTC; suffixes Sec, Min, H, D ('D' = 24 h windows from the Unix epoch, which coincide with Time.Truncate(24h))",
+        "system timezone UTC or any zone at a fixed UTC offset (configured on the real candlers with time.FixedZone); zones with "
+        "transitions are covered by C22_compose only through its hypotheses (nests ...); suffixes Sec, Min, H, D",
         "the fine candles reach the coarse candler as its output column series (Epoch in whole seconds, Open/High/Low/Close float32)",
         "high/low equality is Go's == (the sign of a zero may differ between the two routes); open/close are bit-identical",
     ],
     "level": "proof",
     "level_text": "Coq theorem C22_compose: for ALL row lists with distinct timestamps and NaN-free prices and ALL timeframe pairs whose "
-                  "window lengths divide (windows are PROVED to nest: C22_nest), the coarse candle built from the fine candles has the same "
+                  "window lengths divide and whose grid origins agree modulo the fine length (C22_zone: nesting etc. PROVED for every fixed-offset zone, UTC included; stated as hypotheses for arbitrary zones), the coarse candle built from the fine candles has the same "
                   "open/close and numerically the same high/low as the coarse candle built from the rows; C22_windows: both routes yield "
                   "the same set of coarse windows; C22_pipeline: the executable pipeline (fine output fed to CandleCandler) computes "
-                  "exactly the theorem's object. C22_refuted exhibits the NaN defect outside the guard. Model tied to the code by "
+                  "exactly the theorem's object. C22_refuted (NaN) and C22_refuted_zone (UTC+00:30, 1H -> 1D) exhibit the defects outside the guards. Model tied to the code by "
                   "in-Coq evaluation on every run.",
     "level_note": "Axioms: only the standard real-number/classical axioms inherited from Flocq's float operations. Trusted: Coq kernel/VM, "
                   "Flocq, gen translator, harness. Modelled not verified: contrib/candler/*.go, tickcandler, candlecandler, "
